@@ -138,6 +138,26 @@ instance eqUpToDec : (a b : List Char) → Decidable (eqUpTo a b)
     | isFalse h1, _ => isFalse (fun h => h1 h.1)
     | _, isFalse h2 => isFalse (fun h => h2 h.2)
 
+/-! ## 2b. The column of a loud comment (serializer.rs:997 `write_comment`) -/
+
+/-- number of characters after the last character satisfying `isBreak` -/
+def lastLineLen (isBreak : Char → Bool) : List Char → Nat → Nat
+  | [], n => n
+  | c :: r, n => if isBreak c then lastLineLen isBreak r 0 else lastLineLen isBreak r (n + 1)
+
+def dropBom : List Char → List Char
+  | c :: r => if c = Char.ofNat 0xFEFF then r else c :: r
+  | [] => []
+
+/-- The column `Serializer::write_comment` subtracts from the indentation of the continuation lines
+    of a loud comment (serializer.rs:1003), for a comment that starts right after the text `pre`.
+    `asFound = true`: the code as it stands — codemap's column, i.e. characters since the last LF of
+    the RAW text, a BOM counted.  `asFound = false`: what the property requires — tokens since the
+    last newline TOKEN, a leading BOM not counted. -/
+def commentColumn (asFound : Bool) (pre : List Char) : Nat :=
+  if asFound then lastLineLen (· == LF) pre 0
+  else lastLineLen (· == LF) (normNL (dropBom pre)) 0
+
 /-! ## 3. Scanner results -/
 
 inductive ErrClass where
@@ -1438,6 +1458,10 @@ def handle : List String → String
     match decodeChars h, lo.toNat?, hi.toNat? with
     | some s, some lo, some hi => "ok " ++ boolStr (spanInFile s lo hi)
     | _, _, _ => "bad-op"
+  | ["column", af, h] =>
+    match parseBool? af, decodeChars h with
+    | some af, some s => s!"ok {commentColumn af s}"
+    | _, _ => "bad-op"
   | ["norm", h] =>
     match decodeChars h with
     | some s => "ok " ++ hexEncode (String.ofList (identNorm s))
